@@ -644,8 +644,13 @@ def oracle_c15(seq: dict, obs: dict) -> list:
         for key, what in (("cwd", "working directory"), ("filters", "warnings.filters"), ("set_trace_same", "pdb.set_trace"),
                           ("collected", "COLLECTED_TASKS"), ("prov", "TASKS_WITH_PROVISIONAL_NODES"), ("pdb_saved", "PytaskPDB._saved"),
                           ("report_vars", "ExecutionReport/Traceback class variables")):
-            if key == "report_vars" and not configured:
-                continue   # the class variables are claimed only for builds that passed configuration (pytask_unconfigure ran)
+            if key == "report_vars":
+                # claimed only for builds that passed configuration (pytask_unconfigure ran): then they are back at the defaults,
+                # whatever an earlier build with a failing configuration left behind
+                if configured and aft[key] != obs["inproc"]["initial"][key]:
+                    bad.append(("misc", f"{tag}: {what} are {aft[key]!r} after the build, defaults {obs['inproc']['initial'][key]!r}",
+                                cls if cls == "F6c" else None))
+                continue
             if aft[key] != bef[key]:
                 # F6c: the exception escapes before pytask_unconfigure runs, so nothing is restored
                 bad.append(("misc", f"{tag}: {what} changed: {bef[key]!r} -> {aft[key]!r}", cls if cls == "F6c" else None))
